@@ -521,7 +521,14 @@ func (c *ctx) genOneOf(depth int) *Shape {
 			s.Members = append(s.Members, m)
 			continue
 		}
-		obj = c.genObject(depth+1, c.nextID("Mem"), false)
+		wrapInScope := c.cfg.NestedScopes && r.Chance(15)
+		if wrapInScope {
+			// the member is a scope of its own: references inside it cannot see the enclosing scope's objects
+			inner := &ctx{cfg: c.cfg, r: r, counter: c.counter}
+			obj = inner.genObject(depth+1, c.nextID("Mem"), false)
+		} else {
+			obj = c.genObject(depth+1, c.nextID("Mem"), false)
+		}
 		// members must agree with the inlining flag
 		var kept []*Prop
 		for _, p := range obj.Props {
@@ -539,7 +546,7 @@ func (c *ctx) genOneOf(depth int) *Shape {
 			}
 			obj.Props = append(obj.Props, &Prop{Name: s.Disc, T: dt, Required: r.Bool()})
 		}
-		if c.cfg.NestedScopes && r.Chance(15) {
+		if wrapInScope {
 			m.T = &Shape{Kind: KScope, Root: obj.ID, Objects: []*Shape{obj}}
 		} else {
 			m.T = obj
@@ -835,4 +842,14 @@ func lossyInJSON(v any) bool {
 		}
 	}
 	return false
+}
+
+// GenOneOf generates a stand-alone one-of type (map-based members, no references).
+func GenOneOf(r *wk.Rand, cfg Cfg) *Shape {
+	n := 1000
+	cfg.Refs = false
+	c := &ctx{cfg: cfg, r: r, counter: &n}
+	s := c.genOneOf(2)
+	fixOneOfAmbiguity(s, &Env{})
+	return s
 }
